@@ -21,8 +21,8 @@ import acc_common as AC
 import accir
 
 PROPERTY = "C07"
-MODEL_TARGETS = ["Model/AccInfer.vo", "Model/AccWeave.vo"]
-HEADER_W = "From Snax Require Import Base.Prelude Model.AccIR Model.AccSem Model.AccInfer Model.AccDedup Model.AccWeave.\n"
+MODEL_TARGETS = ["Model/AccInfer.vo", "Model/AccWeave.vo", "Model/AccInferTy.vo"]
+HEADER_W = "From Snax Require Import Base.Prelude Model.AccIR Model.AccSem Model.AccInfer Model.AccInferTy Model.AccDedup Model.AccWeave.\n"
 RULE = ("functions in lowering form: 1-2 accelerators x 1-3 fields, full-field setup+launch+await triples with "
         "values from arguments/constants/loop-derived arithmetic, scf.for (runtime lb/ub/step) and scf.if "
         "(runtime or loop-derived condition, with/without else) nested to depth 3, func.call with/without "
@@ -101,13 +101,16 @@ def correspondence(ctx):
         texts.append(HEADER_W + f"Definition cases : list (prog * tbl * prog) := {accir._l(c for c, _ in sh)}.\n"
                      "Eval vm_compute in failing (fun c => match c with (p, t, b) => tbl_eqb_on (map fst t) (ainfer p) t end) cases.\n"
                      "Eval vm_compute in failing (fun c => match c with (p, t, b) => wf_prog (tfun t) p end) cases.\n"
-                     "Eval vm_compute in failing (fun c => match c with (p, t, b) => weave_ok b p end) cases.\n")
+                     "Eval vm_compute in failing (fun c => match c with (p, t, b) => weave_ok b p end) cases.\n"
+                     "Eval vm_compute in failing (fun c => match c with (p, t, b) => sty_prog p && ainfer_certified p end) cases.\n")
     res = vlib.coq_eval_many("c07l1_", texts, timeout=900)
     for sh, (ok, out) in zip(shards, res):
         lists = vlib.parse_all_eval_lists(out)
-        if not ok or len(lists) != 3:
+        if not ok or len(lists) != 4:
             dis.append({"name": "L1:cases-file", "detail": out[-1500:]})
             continue
+        for idx in lists[3]:
+            dis.append({"name": "L1:model-table-not-certified-or-states-not-typed-per-accelerator", "text": sh[idx][1]})
         for idx in lists[0]:
             dis.append({"name": "L1:infer_state_of-vs-ainfer", "text": sh[idx][1]})
         for idx in lists[1]:
